@@ -104,7 +104,9 @@ CPPManifest(const CPPPreprocessor &parser, const string &args, const cppyyltype 
     parse_parameters(args, p, parameter_names);
     _num_parameters = parameter_names.size();
 
-    p++;
+    if (p < args.size()) {
+      p++;
+    }
   } else {
     _has_parameters = false;
     _num_parameters = 0;
